@@ -302,7 +302,18 @@ class AcceptExtract(guards.Extract):
         if k == "let":
             init = s.get("init")
             if init is not None:
-                pc = f_and(pc, self.try_atoms(init, env))
+                i0 = init
+                while isinstance(i0, dict) and i0.get("k") == "try":
+                    i0 = i0["e"]
+                if isinstance(i0, dict) and i0.get("k") in ("if", "match", "block") and \
+                        any(x.get("k") in ("ret", "try") for x in walk(i0)):
+                    # control flow inside the initialiser: early returns and `?` are conditional
+                    r_ = self.step(i0, pc, env)
+                    if r_ is None:
+                        return None
+                    pc = r_
+                else:
+                    pc = f_and(pc, self.try_atoms(init, env))
             if s.get("els") is not None and init is not None:
                 f = self.cond({"k": "letx", "pat": s["pat"], "init": init}, env)
                 # else branch: may return Ok / Err
